@@ -37,7 +37,7 @@ theorem generate_spec {s s1 : St} {c c1 : Cache} (h : generate s c = some (s1, c
 theorem generate_ok {s : St} (c : Cache) (h1 : s.accumulated ≤ s.capacity)
     (h2 : s.boostedPct ≤ MAX_PERCENT) : generate s c = some (genSt s, genCache s c) := by
   have hcut : genCut s (genTot s) ≤ genTot s := by
-    unfold genCut
+    unfold genCut cutOf
     have hM : MAX_PERCENT = 10000 := rfl
     rw [hM] at h2 ⊢
     apply Nat.div_le_of_le_mul
@@ -48,9 +48,11 @@ theorem generate_ok {s : St} (c : Cache) (h1 : s.accumulated ≤ s.capacity)
   simp only [generate, e1, e2, Option.bind_eq_bind, Option.bind_some, Option.pure_def]
   rfl
 
-theorem genTot_le_room (s : St) : genTot s ≤ s.capacity - s.accumulated := Nat.min_le_right _ _
+theorem genTot_le_room (s : St) : genTot s ≤ s.capacity - s.accumulated := by
+  unfold genTot genTotOf; exact Nat.min_le_right _ _
 
-theorem genTot_le_mint (s : St) : genTot s ≤ mintAmount s := Nat.min_le_left _ _
+theorem genTot_le_mint (s : St) : genTot s ≤ mintAmount s := by
+  unfold genTot genTotOf mintAmount; exact Nat.min_le_left _ _
 
 /-- projections of `genSt` used everywhere -/
 @[simp] theorem genSt_capacity (s : St) : (genSt s).capacity = s.capacity := rfl
